@@ -13,6 +13,7 @@ from random import Random
 import numpy as np
 
 from .. import em, games, seams, simpool
+from .. import prelude
 from ..core import Sim
 
 LEVEL = "exploration"
@@ -66,6 +67,7 @@ def run_state_rule(sim: Sim) -> None:
     gap_name = sim.pick(sorted(GAP_FUNCTIONS), "gap")
     gap = GAP_FUNCTIONS[gap_name]
     budget = None if not sim.flip(1, 4, "budget?") else 2 + sim.choose(6, "budget")
+    prelude.warm_process(sim)
     with sim.guard("C13.construction_raised"):
         if sim.flip(1, 3, "registry"):
             source = em.RegistrySource(sim.pick(KEYS[cls], "key"), n, sim.choose(2 ** 32, "seed"))
@@ -199,6 +201,7 @@ def run_expected_greedy(sim: Sim) -> None:
     comp = games.computer(comp_name)
     K0 = games.minimal_ids(n)
     first = None
+    prelude.warm_process(sim)
     cache: dict = {}
     configs = [(1 + sim.choose(16, "processes"), sim.pick(["fork", "fresh"], "image")) for _ in range(2 + sim.choose(2, "n-configs"))]
     for p, image in configs:
